@@ -5,6 +5,7 @@
 -/
 import Proofs.CompileNfa
 import Proofs.CompileDfa
+import Proofs.CompileDead
 namespace PM
 set_option linter.unusedSimpArgs false
 
@@ -278,5 +279,10 @@ theorem compile_live' (e : Expr) (h : e.wf = true) (w : List Nat) :
     obtain ⟨n, hn⟩ := nreach_prefix w v _ hr
     obtain ⟨m, hm⟩ := nfa_reach_nonskip e h hn
     exact ⟨m, (runSet_start (nfa e) hN (by rw [nfa_size]; omega) w m).2 hm⟩
+
+/-- the automaton the compiler builds is well formed -/
+theorem compile_dfa_wf (e : Expr) (h : e.wf = true) : (dfa (nfa e)).WF := by
+  obtain ⟨h0, ht⟩ := dfa_edges_lt (nfa e) (toNfa_wf _ (nfaState_closed e h))
+  exact ⟨h0, ht⟩
 
 end PM
